@@ -10,6 +10,7 @@ import (
 	"fmt"
 	"io"
 	"reflect"
+	"runtime"
 	"sort"
 	"strconv"
 	"strings"
@@ -567,6 +568,21 @@ func subC(rc *kernel.RunCtx, k *kernel.Kernel) {
 		h = jsonrpc2.AsyncHandler(h)
 	}
 	conn.Go(ctxRun, h)
+	// lock hand-overs as seams (a random subset per run): a goroutine that has just released
+	// one of the conn's mutexes may be held there while others proceed
+	yieldP := []int{0, 0, 1, 2, 4}[t.Choose(5, "unlock-yield-rate")]
+	nyield := 0
+	simsync.SetAfterUnlock(func() {
+		if yieldP == 0 || !k.Quiescing.Load() || k.Capped() {
+			return
+		}
+		if t.Chance(yieldP, 8, "yield-after-unlock") {
+			nyield++
+			k.Count("probe_parked_right_after_unlock", 1)
+			k.Park(fmt.Sprintf("unlock#%d", nyield), "yield", "", nil)
+		}
+	})
+	defer simsync.SetAfterUnlock(nil)
 
 	ncallers := t.Range(1, rc.Param("max_callers", 5), "ncallers")
 	nnotifiers := t.Range(0, 2, "nnotifiers")
@@ -710,26 +726,6 @@ func subC(rc *kernel.RunCtx, k *kernel.Kernel) {
 					c.cancel()
 					k.Quiesce()
 				}})
-			}
-			if !c.cancelled && !c.done && k.Find(c.task) == nil {
-				if rd := k.Find("rd:A"); rd != nil {
-					iomu.Lock()
-					empty := len(w.b2a.buf) == 0
-					iomu.Unlock()
-					if empty {
-						// the reply and the caller's cancellation arrive together: either outcome is the
-						// caller's own (its result or its cancellation); nothing about the outcome is logged
-						acts = append(acts, action{2 + 2*wCancel, func() {
-							k.Action("reply to " + c.value + " and cancel it at the same moment")
-							c.answered, c.cancelled = true, true
-							k.Count("fault_reply_races_cancellation", 1)
-							peerSend(map[string]any{"jsonrpc": "2.0", "id": c.wireID, "result": map[string]any{"v": c.value}})
-							k.Release(rd, kernel.Decision{})
-							c.cancel()
-							k.Quiesce()
-						}})
-					}
-				}
 			}
 			acts = append(acts, action{wNever, func() {
 				k.Action("peer will never answer " + c.value)
@@ -904,6 +900,11 @@ func sum(b []byte) uint64 {
 }
 
 func simWorld(rc *kernel.RunCtx) {
+	// One release can make several goroutines runnable (a reply wakes its caller, a handler
+	// that has replied unblocks the next one). With a single P they run one after the other in
+	// run-queue order, so everything they do - including the tape draws of the lock hand-over
+	// seams - is a function of the tape (same under-approximation as in the lsp world).
+	runtime.GOMAXPROCS(1)
 	sub := []string{"F", "T", "C", "C"}[rc.Run%4]
 	if rc.Replay {
 		sub = []string{"F", "T", "C", "C"}[rc.Run%4]
